@@ -120,7 +120,7 @@ Lemma f_zero_cand x i s : R x s -> R x (zero_cand A i s).
 Proof. intros H. unfold zero_cand. apply r_upd_same; [exact H|]. intros c; repeat split. Qed.
 Lemma sat_zero_cand i j (s : est) P : Sat s j P -> Sat (zero_cand A i s) j P.
 Proof. intros HS. eapply sat_stl; [|exact HS]. unfold zero_cand, upd. cbn [cands set_cands]. apply stl_upd_same. intros c; repeat split. Qed.
-Lemma f_update_kfs x s : R x s -> R x (update_kfs A s).
+Lemma f_update_kfs cl x s : R x s -> R x (update_kfs A cl s).
 Proof.
   intros H. unfold update_kfs. apply f_fold0; [|exact H]. intros y t c Hy. destruct (crashed t); [exact Hy|].
   destruct (kdiv A _ _ _); [apply f_upd_kf|apply f_crash]; exact Hy.
@@ -300,7 +300,7 @@ Proof.
   - cbn [lv_batch set_surplus]. rewrite lvb_fold; [rewrite lvb_set_quota_r; cbn [lv_batch set_votes]; apply lvb_distribute|].
     intros t c. cbn [lv_batch set_status]. apply lvb_elect.
 Qed.
-Lemma lvb_update_kfs (s : est) : lv_batch (update_kfs A s) = lv_batch s.
+Lemma lvb_update_kfs cl (s : est) : lv_batch (update_kfs A cl s) = lv_batch s.
 Proof.
   unfold update_kfs. apply lvb_fold. intros t c. destruct (crashed t); [reflexivity|]. destruct (kdiv A _ _ _); reflexivity.
 Qed.
